@@ -345,3 +345,82 @@ def check_adjoint(prog, ctx):
         for fam, wmsg in sorted(mine.items()):
             ctx.check(False, rid, f, f.node, fam, f"{msg} — witness: {wmsg}")
     return len(cases)
+
+
+def _abelian_job(state, sp):
+    prog, tier = state
+    w = World(prog)
+    wit = Witness()
+    where = sp.describe()
+    model = Model(sp.sym)
+
+    def obs(ev, r):
+        if isinstance(r, Obj) and "_phases" in r.fields:
+            r = w.meth(ev, r, "phase_sync")
+        return (tuple(ixdesc(i) for i in r.fields["_indices"]), repr(r.fields["_charge"]),
+                tuple(sorted((repr(k), repr(b.term)) for k, b in r.fields["_blocks"].items())))
+    try:
+        ev = w.ev()
+        wit.tick("R10.6")
+        x = sp.build(w)
+        c = w.meth(ev, sp.build(w), "conj")
+        # conj: every direction flipped over the same tables, charge negated, every block conjugated in place
+        ok_ix = all(bool(a.fields["_dual"]) != bool(b.fields["_dual"]) and dict(a.fields["_chargemap"]) == dict(b.fields["_chargemap"])
+                    for a, b in zip(x.fields["_indices"], c.fields["_indices"]))
+        if not ok_ix:
+            wit.bad("R10.6|conj indices", f"{where}: conj does not flip the direction of every index over the same charge table")
+        if c.fields["_charge"] != model.sign(x.fields["_charge"]):
+            wit.bad("R10.6|conj charge", f"{where}: conj gives charge {c.fields['_charge']}, the negated charge is {model.sign(x.fields['_charge'])}")
+        if not sp.fermionic:
+            from engine.absarray import shaped_backend
+
+            conj_ = shaped_backend()["conj"]
+            want = {k: repr(conj_(b).term) for k, b in x.fields["_blocks"].items()}
+            got = {k: repr(b.term) for k, b in c.fields["_blocks"].items()}
+            if got != want:
+                wit.bad("R10.6|conj blocks", f"{where}: conj does not conjugate every block under its own sector")
+            # dagger = conj then full transpose; H and T are the defaults
+            d = obs(ev, w.meth(ev, sp.build(w), "dagger"))
+            ct = obs(ev, w.meth(ev, w.meth(ev, sp.build(w), "conj"), "transpose"))
+            if d != ct:
+                wit.bad("R10.6|dagger", f"{where}: dagger differs from conj followed by the full transpose")
+            if obs(ev, w.meth(ev, sp.build(w), "T")) != obs(ev, w.meth(ev, sp.build(w), "transpose")):
+                wit.bad("R10.6|T", f"{where}: T differs from transpose()")
+        if obs(ev, w.meth(ev, sp.build(w), "H")) != obs(ev, w.meth(ev, sp.build(w), "dagger")):
+            wit.bad("R10.6|H", f"{where}: H differs from dagger()")
+        for ip in (True,):
+            y = sp.build(w)
+            r = w.meth(ev, y, "dagger", inplace=True)
+            if r is not y:
+                wit.bad("R10.6|inplace", f"{where}: dagger(inplace=True) returns another object")
+    except Unsupported as e:
+        raise AnalysisError(f"conj / dagger outside the evaluable sub-language: {e}")
+    except Raised as e:
+        wit.bad("R10.6|refused", f"{where}: raises {e.what[:120]}")
+    except PYERR as e:
+        wit.bad("R10.6|fails", f"{where}: {type(e).__name__}: {e}")
+    return wit.w, wit.n
+
+
+def check_abelian_semantics(prog, ctx):
+    from engine.parallel import pmap
+
+    tier = ctx.tier
+    syms = ("Z2", "U1") if tier == "quick" else ("Z2", "U1", "Z2Z2", "U1U1", "Z4")
+    cases = [sp for sp in specs(tier, syms=syms, ranks=(1, 2, 3))]
+    if tier == "quick":
+        cases = cases[::2] + cases[1::4]
+    wits, n = {}, 0
+    for wmap, cnt in pmap(_abelian_job, (prog, tier), cases):
+        for k, v in wmap.items():
+            wits.setdefault(k, v)
+        n += cnt.get("R10.6", 0)
+    ctx.need(n >= 40 or wits, f"R10.6: only {n} arrays evaluated")
+    f = prog.func("symmray.abelian_core:AbelianArray.conj")
+    msg = ("conj flips every index direction over the same tables, negates the charge and conjugates every block under its own sector; "
+           "the abelian dagger is conj followed by the full transpose; H is dagger(), T is transpose()")
+    if not wits:
+        ctx.check(True, "R10.6", f, f.node, "R10.6", f"{msg} ({n} arrays)")
+    for key, wmsg in sorted(wits.items()):
+        ctx.check(False, "R10.6", f, f.node, key.split("|", 1)[1], f"{msg} — witness: {wmsg}")
+    return n
